@@ -2,11 +2,17 @@
   C03 — the runner executes exactly what the command results dictate.
   The model runner (`runLoop`, a transcription of `run_instructions`) and the abstract
   machine of the property statement (`Spec.Step`, `Spec.Reaches`) compute the same runs.
+  Props/C03Translated.lean : one iteration of the loop of `run_instructions`, `run_instruction`,
+                          `run_on_error_instruction` and `update_output` as TRANSLATED from the current
+                          source (Generated/RunnerStep.lean) equal the hand-written `runStep`,
+                          `runInstruction`, `runOnError`, `Vars.updateOutput`; `C03_sound` /
+                          `C03_complete` restated about the loop over the translated step.
 -/
 import DuckModel.Runner
 import DuckModel.Spec.Machine
 import DuckModel.Lemmas.RunnerLemmas
 import DuckModel.Props.C03Sdk
+import DuckModel.Props.C03Translated
 
 namespace Duck
 open Duck.Spec
